@@ -65,7 +65,7 @@ class Poly:
         return self + (-o)
 
     def __mul__(self, o):
-        if len(self.d) > 4000 or len(o.d) > 4000:
+        if len(self.d) * len(o.d) > 400000:
             raise GiveUp("polynomial too large")
         d = {}
         for m1, c1 in self.d.items():
@@ -131,6 +131,34 @@ class RF:
             if c != 1:
                 self.n = self.n.scale(1 / c)
                 self.d = Poly.const(1)
+        elif self.d.d and self.n.d:
+            # cancel the monomial common to every term of numerator and denominator
+            common = None
+            for m in list(self.n.d) + list(self.d.d):
+                dm = dict(m)
+                if common is None:
+                    common = dm
+                else:
+                    common = {a: min(e, dm[a]) for a, e in common.items() if a in dm}
+                if not common:
+                    break
+            if common:
+                def strip(p):
+                    out = {}
+                    for m, c in p.d.items():
+                        dm = dict(m)
+                        for a, e in common.items():
+                            dm[a] -= e
+                            if dm[a] == 0:
+                                del dm[a]
+                        out[tuple(sorted(dm.items()))] = c
+                    return Poly(out)
+                self.n, self.d = strip(self.n), strip(self.d)
+                if self.d.is_const():
+                    c = self.d.const_value()
+                    if c != 1:
+                        self.n = self.n.scale(1 / c)
+                        self.d = Poly.const(1)
 
     def __add__(self, o):
         if self.d.is_const() and o.d.is_const():
@@ -162,11 +190,38 @@ def _same_poly(a, b):
 ARITH = {z3.Z3_OP_ADD, z3.Z3_OP_SUB, z3.Z3_OP_MUL, z3.Z3_OP_DIV, z3.Z3_OP_UMINUS, z3.Z3_OP_POWER}
 
 
+def pure_int(t, _memo={}):
+    """True if the formula mentions no real-sorted subterm (index arithmetic only)."""
+    k = t.get_id()
+    if k in _memo and _memo[k][0].eq(t):
+        return _memo[k][1]
+    ok = True
+    stack = [t]
+    seen = set()
+    while stack:
+        x = stack.pop()
+        i = x.get_id()
+        if i in seen:
+            continue
+        seen.add(i)
+        if z3.is_quantifier(x):
+            ok = False
+            break
+        if x.sort().kind() == z3.Z3_REAL_SORT:
+            ok = False
+            break
+        for j in range(x.num_args()):
+            stack.append(x.arg(j))
+    _memo[k] = (t, ok)      # keep the term alive: AST ids are reused after collection
+    return ok
+
+
 class Case:
     """One leaf of the case analysis: a solver holding pc + decided conditions."""
 
-    def __init__(self, solver, stats, expand_int=False):
+    def __init__(self, solver, stats, expand_int=False, int_solver=None):
         self.s = solver
+        self.si = int_solver if int_solver is not None else solver   # index arithmetic only
         self.stats = stats
         self.expand_int = expand_int
         self.int_reps = []      # list of (term, id)
@@ -177,6 +232,10 @@ class Case:
         self.atom_names = {}
         self.atom_info = {}     # atom id -> (function name, [arg RFs])
         self.atom_term = {}     # atom id -> representative z3 term
+        self.defs = []          # definitional atoms for large intermediate quantities
+        self.compress_at = None
+        self.assumptions = []   # z3 bools (path condition): real comparisons are also used at the RF level
+        self._signs = None
         self.natoms = 0
 
     def new_atom(self, desc):
@@ -186,58 +245,59 @@ class Case:
 
     def entails(self, c):
         k = c.get_id()
-        if k in self.cond_cache:
-            return self.cond_cache[k]
+        if k in self.cond_cache and self.cond_cache[k][0].eq(c):
+            return self.cond_cache[k][1]
         self.stats["queries"] += 1
-        self.s.push()
-        self.s.add(z3.Not(c))
-        r = self.s.check()
-        self.s.pop()
+        sv = self.si if pure_int(c) else self.s
+        sv.push()
+        sv.add(z3.Not(c))
+        r = sv.check()
+        sv.pop()
         if r == z3.unsat:
-            self.cond_cache[k] = True
+            self.cond_cache[k] = (c, True)
             return True
-        self.s.push()
-        self.s.add(c)
-        r2 = self.s.check()
-        self.s.pop()
+        sv.push()
+        sv.add(c)
+        r2 = sv.check()
+        sv.pop()
         v = False if r2 == z3.unsat else None
-        self.cond_cache[k] = v
+        self.cond_cache[k] = (c, v)
         return v
 
     def int_rep(self, t):
         k = t.get_id()
-        if k in self.int_cache:
-            return self.int_cache[k]
+        if k in self.int_cache and self.int_cache[k][0].eq(t):
+            return self.int_cache[k][1]
         if z3.is_int_value(t):
             r = ("ival", t.as_long())
-            self.int_cache[k] = r
+            self.int_cache[k] = (t, r)
             return r
         for (u, uid) in self.int_reps:
             if u.eq(t):
-                self.int_cache[k] = uid
+                self.int_cache[k] = (t, uid)
                 return uid
         for (u, uid) in self.int_reps:
             self.stats["queries"] += 1
-            self.s.push()
-            self.s.add(t != u)
-            r = self.s.check()
-            self.s.pop()
+            self.si.push()
+            self.si.add(t != u)
+            r = self.si.check()
+            self.si.pop()
             if r == z3.unsat:
-                self.int_cache[k] = uid
+                self.int_cache[k] = (t, uid)
                 return uid
         for (u, uid) in self.int_reps:
             self.stats["queries"] += 1
-            self.s.push()
-            self.s.add(t != -u)
-            r = self.s.check()
-            self.s.pop()
+            self.si.push()
+            self.si.add(t != -u)
+            r = self.si.check()
+            self.si.pop()
             if r == z3.unsat:
-                self.int_cache[k] = ("neg", uid)
+                self.int_cache[k] = (t, ("neg", uid))
                 return ("neg", uid)
         uid = ("int", self.new_atom("int:" + _short(t)))
         self.atom_term[uid] = z3.ToReal(t)
         self.int_reps.append((t, uid))
-        self.int_cache[k] = uid
+        self.int_cache[k] = (t, uid)
         return uid
 
     def int_value(self, t):
@@ -245,18 +305,18 @@ class Case:
         if z3.is_int_value(t):
             return t.as_long()
         self.stats["queries"] += 1
-        if self.s.check() != z3.sat:
+        if self.si.check() != z3.sat:
             return None
         try:
-            v = self.s.model().eval(t, model_completion=True)
+            v = self.si.model().eval(t, model_completion=True)
         except z3.Z3Exception:
             return None
         if not z3.is_int_value(v):
             return None
-        self.s.push()
-        self.s.add(t != v)
-        r = self.s.check()
-        self.s.pop()
+        self.si.push()
+        self.si.add(t != v)
+        r = self.si.check()
+        self.si.pop()
         return v.as_long() if r == z3.unsat else None
 
     def norm_int(self, t):
@@ -303,11 +363,31 @@ class Case:
 
     def norm(self, t):
         k = t.get_id()
-        r = self.memo.get(k)
-        if r is None:
-            r = self._norm(t)
-            self.memo[k] = r
+        hit = self.memo.get(k)
+        if hit is not None and hit[0].eq(t):
+            return hit[1]
+        r = self._norm(t)
+        if self.compress_at is not None and len(r.n.d) + len(r.d.d) > self.compress_at:
+            r = self.compress(r, t)
+        self.memo[k] = (t, r)      # keeps t alive: z3 AST ids are reused after collection
         return r
+
+    def compress(self, rf, t):
+        """Name a large intermediate quantity by a definitional atom (the same quantity built on
+        the other side of the equation gets the same atom).  Sound: it only forgets structure."""
+        for (orf, aid) in self.defs:
+            if len(orf.n.d) == len(rf.n.d) and len(orf.d.d) == len(rf.d.d) and orf.n.d == rf.n.d and orf.d.d == rf.d.d:
+                return RF(Poly.atom(aid))
+        for (orf, aid) in self.defs:
+            try:
+                if self.rf_equal(orf, rf):
+                    return RF(Poly.atom(aid))
+            except GiveUp:
+                pass
+        aid = ("def", self.new_atom("def:" + _short(t)))
+        self.atom_term[aid] = t
+        self.defs.append((rf, aid))
+        return RF(Poly.atom(aid))
 
     def _norm(self, t):
         if z3.is_rational_value(t):
@@ -351,7 +431,9 @@ class Case:
             return self.app(t)
         if k == z3.Z3_OP_ITE:
             c = t.arg(0)
-            e = self.entails(c)
+            e = self.decide_by_sign(c)
+            if e is None:
+                e = self.entails(c)
             if e is None:
                 c2 = self.normalised_condition(c)
                 if not c2.eq(c):
@@ -425,6 +507,55 @@ class Case:
         if rf.d.is_const():
             return n if rf.d.const_value() == 1 else n / z3.RealVal(str(rf.d.const_value()))
         return n / self.poly_to_term(rf.d)
+
+    def known_signs(self):
+        """Real comparisons among the assumptions, as (RF of lhs - rhs, op)."""
+        if self._signs is None:
+            self._signs = []
+            ops = {z3.Z3_OP_LT: "<", z3.Z3_OP_LE: "<=", z3.Z3_OP_GT: ">", z3.Z3_OP_GE: ">="}
+            for c in self.assumptions:
+                neg = False
+                if z3.is_not(c):
+                    c, neg = c.arg(0), True
+                if z3.is_app(c) and c.num_args() == 2 and c.decl().kind() in ops and c.arg(0).sort().kind() == z3.Z3_REAL_SORT:
+                    op = ops[c.decl().kind()]
+                    if neg:
+                        op = {"<": ">=", "<=": ">", ">": "<=", ">=": "<"}[op]
+                    try:
+                        self._signs.append((self.norm(c.arg(0)) - self.norm(c.arg(1)), op))
+                    except (NeedSplit, GiveUp):
+                        pass
+        return self._signs
+
+    def decide_by_sign(self, c):
+        """Decide a real comparison whose difference is (the negative of) an assumed one."""
+        ops = {z3.Z3_OP_LT: "<", z3.Z3_OP_LE: "<=", z3.Z3_OP_GT: ">", z3.Z3_OP_GE: ">="}
+        if not (z3.is_app(c) and c.num_args() == 2 and c.decl().kind() in ops and c.arg(0).sort().kind() == z3.Z3_REAL_SORT):
+            return None
+        try:
+            q = self.norm(c.arg(0)) - self.norm(c.arg(1))
+        except (NeedSplit, GiveUp):
+            return None
+        qop = ops[c.decl().kind()]
+        table = {  # known e op 0  ->  truth of q qop 0 when q == e
+            ("<", "<"): True, ("<", "<="): True, ("<", ">"): False, ("<", ">="): False,
+            ("<=", ">"): False, ("<=", "<="): True,
+            (">", ">"): True, (">", ">="): True, (">", "<"): False, (">", "<="): False,
+            (">=", "<"): False, (">=", ">="): True}
+        flip = {"<": ">", "<=": ">=", ">": "<", ">=": "<="}
+        for e, op in self.known_signs():
+            try:
+                if self.rf_equal(q, e):
+                    r = table.get((op, qop))
+                    if r is not None:
+                        return r
+                if self.rf_equal(q, RF(-e.n, e.d)):
+                    r = table.get((flip[op], qop))
+                    if r is not None:
+                        return r
+            except GiveUp:
+                pass
+        return None
 
     def normalised_condition(self, c):
         """Rebuild a real comparison with both sides normalised (log/exp/pow rules applied), so
@@ -500,28 +631,109 @@ class Case:
                 info = self.atom_info.get(mn[0][0][0])
                 if info is not None and info[0] == "log":
                     return info[1][0]
-        if name == "pow" and len(args) == 2 and isinstance(args[1], RF) and args[1].n.is_const() and args[1].d.is_const():
+        if name == "pow" and len(args) == 2 and isinstance(args[1], RF) and args[1].n.is_const() and args[1].d.is_const() \
+                and isinstance(args[0], RF) and len(args[0].n.d) <= 1 and len(args[0].d.d) <= 1:
+            # integer powers of a monomial base are expanded; for a composite base the pow atom is
+            # kept so that power products can still be combined
             e = args[1].n.const_value() / args[1].d.const_value()
             if e.denominator == 1 and abs(e.numerator) <= 8:
                 r = RF(Poly.const(1))
                 for _ in range(abs(e.numerator)):
                     r = r * args[0]
                 return r if e >= 0 else RF(Poly.const(1)) / r
+        if name in ("cos", "sin") and len(args) == 1 and isinstance(args[0], RF):
+            r = self.trig_rules(name, args[0])
+            if r is not None:
+                return r
         if name == "arctan" and len(args) == 1 and _is_const(args[0], 1):
             return self.norm(z3.Real("pi")) * RF(Poly.const(Fraction(1, 4)))
         return None
 
+    # ---- trigonometry (A8 instances): shift by pi/2, polar angle + addition formula
+    def _trig(self, name, rf):
+        f = z3.Function(name, z3.RealSort(), z3.RealSort())
+        return self.norm(f(self.rf_to_term(rf)))
+
+    def trig_rules(self, name, a):
+        if not a.d.is_const():
+            return None
+        dc = a.d.const_value()
+        pi_rf = self.norm(z3.Real("pi"))
+        (pm, _), = pi_rf.n.d.items()
+        pi_atom = pm[0][0]
+        # linear occurrence of pi with coefficient -1/2 or +1/2:  cos(t - pi/2) = sin t, sin(t - pi/2) = -cos t
+        cpi = a.n.d.get(((pi_atom, 1),), Fraction(0)) / dc
+        if cpi in (Fraction(-1, 2), Fraction(1, 2)):
+            rest = RF(a.n - Poly({((pi_atom, 1),): cpi * dc}), a.d)
+            sgn = 1 if cpi < 0 else -1
+            if name == "cos":      # cos(t -/+ pi/2) = +/- sin t
+                r = self._trig("sin", rest)
+                return r if sgn == 1 else RF(-r.n, r.d)
+            r = self._trig("cos", rest)   # sin(t - pi/2) = -cos t ; sin(t + pi/2) = cos t
+            return RF(-r.n, r.d) if sgn == 1 else r
+        # polar angle: theta = arctan2(y, x) with coefficient one: addition formula with
+        # cos(theta) = x/rho, sin(theta) = y/rho, rho = sqrt(x^2 + y^2)
+        for m, c in a.n.d.items():
+            if len(m) == 1 and m[0][1] == 1 and c == dc and self.atom_info.get(m[0][0], ("",))[0] == "arctan2":
+                at = m[0][0]
+                if any(at in [x for x, _ in mm] for mm in a.n.d if mm != m):
+                    continue
+                yy, xx = self.atom_info[at][1]
+                rest = RF(a.n - Poly({m: c}), a.d)
+                sq = z3.Function("sqrt", z3.RealSort(), z3.RealSort())
+                rho = self.norm(sq(self.rf_to_term(xx * xx + yy * yy)))
+                cb = self._trig("cos", rest) if not rest.n.is_zero() else RF(Poly.const(1))
+                sb = self._trig("sin", rest) if not rest.n.is_zero() else RF(Poly.const(0))
+                if name == "cos":
+                    return (xx * cb - yy * sb) / rho
+                return (yy * cb + xx * sb) / rho
+        return None
+
     # ---- power products: pow(b,e1)*pow(b,e2) = pow(b,e1+e2), b^k*pow(b,e) = pow(b,e+k), sqrt(a)^2 = a
+    def base_id(self, rf):
+        bases = self.__dict__.setdefault("_bases", [])
+        for k, b in enumerate(bases):
+            if b.equals(rf):
+                return k
+        bases.append(rf)
+        # a base that is a single atom also absorbs plain powers of that atom
+        mn = self._single_monomial(rf.n)
+        if mn is not None and rf.d.is_const() and mn[1] == rf.d.const_value() and len(mn[0]) == 1 and mn[0][0][1] == 1:
+            self.__dict__.setdefault("_atom_base", {})[mn[0][0][0]] = len(bases) - 1
+        return len(bases) - 1
+
+    def pow_base(self, atom):
+        info = self.atom_info.get(atom)
+        if info is None or info[0] != "pow":
+            return None
+        cache = self.__dict__.setdefault("_pow_base", {})
+        if atom not in cache:
+            cache[atom] = self.base_id(info[1][0])
+        return cache[atom]
+
     def combine_pows(self, poly):
         changed = False
         out = Poly()
+        atom_base = self.__dict__.setdefault("_atom_base", {})
         for mono, c in poly.d.items():
-            groups = []   # (base RF, exponent RF)
+            groups = {}   # base id -> exponent RF
             rest = []
+            npow = 0
+            exps = []
             for atom, k in mono:
+                bid = self.pow_base(atom)
                 info = self.atom_info.get(atom)
-                if info is not None and info[0] == "pow":
-                    groups.append([info[1][0], RF(info[1][1].n.scale(k), info[1][1].d)])
+                if info is not None and info[0] == "exp":
+                    exps.append((atom, k, info[1][0]))
+                    continue
+                if bid is not None:
+                    e = RF(info[1][1].n.scale(k), info[1][1].d)
+                    if bid in groups:
+                        groups[bid] = groups[bid] + e
+                        changed = True
+                    else:
+                        groups[bid] = e
+                    npow += 1
                 elif info is not None and info[0] == "sqrt" and k >= 2:
                     changed = True
                     for _ in range(k // 2):
@@ -530,70 +742,100 @@ class Case:
                         rest.append((atom, 1))
                 else:
                     rest.append((atom, k))
-            if not groups and not changed:
-                out = out + Poly({mono: c})
+            if len(exps) > 1 or (len(exps) == 1 and exps[0][1] > 1):
+                # exp(a)^k * exp(b)^l = exp(k a + l b)
+                tot = RF(Poly())
+                for atom, k, arg in exps:
+                    tot = tot + RF(arg.n.scale(k), arg.d)
+                rest.append(("rf", self.exp_atom(tot)))
+                changed = True
+            else:
+                for atom, k, arg in exps:
+                    rest.append((atom, k))
+            if not groups and not any(x[0] == "rf" for x in rest):
+                out.d[mono] = out.d.get(mono, 0) + c
+                if out.d[mono] == 0:
+                    del out.d[mono]
                 continue
-            # merge groups with equal bases
-            merged = []
-            for b, e in groups:
-                for g in merged:
-                    if g[0].equals(b):
-                        g[1] = g[1] + e
-                        changed = True
-                        break
-                else:
-                    merged.append([b, e])
-            # absorb plain occurrences of a base that is a single atom
             rest2 = []
             for item in rest:
-                if item[0] == "rf":
+                if item[0] != "rf" and item[0] in atom_base and atom_base[item[0]] in groups:
+                    groups[atom_base[item[0]]] = groups[atom_base[item[0]]] + RF(Poly.const(item[1]))
+                    changed = True
+                else:
                     rest2.append(item)
-                    continue
-                atom, k = item
-                hit = False
-                for g in merged:
-                    if g[0].equals(RF(Poly.atom(atom))):
-                        g[1] = g[1] + RF(Poly.const(k))
-                        hit = True
-                        changed = True
-                        break
-                if not hit:
-                    rest2.append(item)
-            term = RF(Poly.const(c))
+            term = RF(Poly({tuple(sorted((a, k) for a, k in rest2 if a != "rf")): Fraction(c)}))
             for item in rest2:
                 if item[0] == "rf":
                     term = term * item[1]
-                else:
-                    a = RF(Poly.atom(item[0]))
-                    for _ in range(item[1]):
-                        term = term * a
-            for b, e in merged:
+            for bid, e in groups.items():
                 if e.n.is_zero():
                     changed = True
                     continue
-                term = term * self.pow_atom(b, e)
+                term = term * self.pow_atom(bid, e)
             if not term.d.is_const():
-                # denominators would need a common multiple: give this monomial up unchanged
-                out = out + Poly({mono: c})
+                out.d[mono] = out.d.get(mono, 0) + c
                 continue
-            out = out + term.n.scale(1 / term.d.const_value())
+            k = 1 / term.d.const_value()
+            od = out.d
+            for m2, c2 in term.n.d.items():
+                v = od.get(m2, 0) + c2 * k
+                if v == 0:
+                    od.pop(m2, None)
+                else:
+                    od[m2] = v
+        for m2 in [m for m, v in out.d.items() if v == 0]:
+            del out.d[m2]
         return out, changed
 
-    def pow_atom(self, base, e):
-        if e.n.is_const() and e.d.is_const():
+    def exp_atom(self, arg):
+        if arg.n.is_zero():
+            return RF(Poly.const(1))
+        for aid, info in self.atom_info.items():
+            if info[0] == "exp" and self.rf_equal(info[1][0], arg):
+                return RF(Poly.atom(aid))
+        aid = ("app", self.new_atom("exp(combined)"))
+        self.atom_info[aid] = ("exp", [arg])
+        try:
+            self.atom_term[aid] = z3.Function("exp", z3.RealSort(), z3.RealSort())(self.rf_to_term(arg))
+        except GiveUp:
+            pass
+        return RF(Poly.atom(aid))
+
+    def pow_atom(self, bid, e):
+        base = self._bases[bid]
+        if e.n.is_const() and e.d.is_const() and len(base.n.d) <= 1 and len(base.d.d) <= 1:
             ev = e.n.const_value() / e.d.const_value()
             if ev.denominator == 1 and abs(ev.numerator) <= 8:
                 r = RF(Poly.const(1))
                 for _ in range(abs(ev.numerator)):
                     r = r * base
                 return r if ev >= 0 else RF(Poly.const(1)) / r
-        lst = self.apps.setdefault("pow/comb", [])
-        for (oargs, aid) in lst:
-            if oargs[0].equals(base) and oargs[1].equals(e):
+        key = (bid, frozenset(e.n.d.items()), frozenset(e.d.d.items()))
+        kc = self.__dict__.setdefault("_comb_key", {})
+        if key in kc:
+            return RF(Poly.atom(kc[key]))
+        lst = self.__dict__.setdefault("_comb", {}).setdefault(bid, [])
+        for (oe, aid) in lst:
+            if oe.equals(e):
+                kc[key] = aid
                 return RF(Poly.atom(aid))
-        aid = ("app", self.new_atom("pow(%s ; %s)" % (base.n, e.n)))
-        lst.append(([base, e], aid))
+        # an existing pow application with this base and exponent?
+        for aid, info in self.atom_info.items():
+            if info[0] == "pow" and self.pow_base(aid) == bid and info[1][1].equals(e):
+                lst.append((e, aid))
+                kc[key] = aid
+                return RF(Poly.atom(aid))
+        aid = ("app", self.new_atom("pow(base#%d ; %s)" % (bid, e.n)))
+        lst.append((e, aid))
+        kc[key] = aid
         self.atom_info[aid] = ("pow", [base, e])
+        self.__dict__.setdefault("_pow_base", {})[aid] = bid
+        f = z3.Function("pow", z3.RealSort(), z3.RealSort(), z3.RealSort())
+        try:
+            self.atom_term[aid] = f(self.rf_to_term(base), self.rf_to_term(e))
+        except GiveUp:
+            pass
         return RF(Poly.atom(aid))
 
     def is_zero(self, poly):
@@ -664,14 +906,18 @@ def prove(pc, hyps, goal, timeout_s=60, max_cases=4000):
             return {"result": "unknown", "reason": "not a value goal: %s" % _short(c), "backend": "valueview",
                     "time_s": 0.0}
     s = z3.Solver()
-    s.set("timeout", 10000)
-    for c in pc:
+    s.set("timeout", 5000)
+    s.set("rlimit", 3000000)      # nonlinear queries with uninterpreted functions: bounded effort
+    si = z3.Solver()
+    si.set("timeout", 10000)
+    for c in list(pc) + list(hyps):
         s.add(c)
-    for h in hyps:
-        s.add(h)
+        if pure_int(c):
+            si.add(c)
     failures = []
     stack = []
-    mode = {"expand": False}
+    split_conds = []
+    mode = {"expand": False, "compress": None}
 
     def rec(depth):
         if time.time() - t0 > timeout_s:
@@ -679,9 +925,13 @@ def prove(pc, hyps, goal, timeout_s=60, max_cases=4000):
         stats["cases"] += 1
         if stats["cases"] > max_cases:
             raise GiveUp("too many cases")
-        if s.check() == z3.unsat:
+        if si.check() == z3.unsat:
+            return  # infeasible case (index arithmetic)
+        if depth > 0 and s.check() == z3.unsat:
             return  # infeasible case
-        case = Case(s, stats, expand_int=mode["expand"])
+        case = Case(s, stats, expand_int=mode["expand"], int_solver=si)
+        case.compress_at = mode["compress"]
+        case.assumptions = list(pc) + list(hyps) + list(split_conds)
         try:
             for (a, b) in eqs:
                 ra, rb = case.norm(a), case.norm(b)
@@ -704,18 +954,30 @@ def prove(pc, hyps, goal, timeout_s=60, max_cases=4000):
             c = ns.cond
             s.push()
             s.add(c)
+            si.push()
+            if pure_int(c):
+                si.add(c)
             stack.append(_short(c))
+            split_conds.append(c)
             rec(depth + 1)
+            split_conds.pop()
             stack.pop()
             s.pop()
+            si.pop()
             if failures:
                 return
             s.push()
             s.add(z3.Not(c))
+            si.push()
+            if pure_int(c):
+                si.add(z3.Not(c))
             stack.append("not " + _short(c))
+            split_conds.append(z3.Not(c))
             rec(depth + 1)
+            split_conds.pop()
             stack.pop()
             s.pop()
+            si.pop()
 
     try:
         rec(0)
@@ -731,6 +993,24 @@ def prove(pc, hyps, goal, timeout_s=60, max_cases=4000):
             if failures:
                 failures[:] = first
     except GiveUp as g:
+        if mode["compress"] is None and "large" in str(g) or "timeout" in str(g) and mode["compress"] is None:
+            # third attempt: name large intermediate quantities by definitional atoms
+            mode["compress"] = 24
+            mode["expand"] = False
+            del failures[:]
+            del stack[:]
+            t0 = time.time()
+            try:
+                while s.num_scopes() > 0:
+                    s.pop()
+                while si.num_scopes() > 0:
+                    si.pop()
+                rec(0)
+                if not failures:
+                    return {"result": "unsat", "backend": "valueview(case-split + z3 LIA congruence + exact polynomial identity, definitional atoms) z3 " + z3.get_version_string(),
+                            "stats": stats, "time_s": round(time.time() - t0, 3)}
+            except GiveUp as g2:
+                g = g2
         return {"result": "unknown", "reason": "valueview: %s" % g, "backend": "valueview", "stats": stats,
                 "time_s": round(time.time() - t0, 3)}
     except z3.Z3Exception as e:
